@@ -314,7 +314,7 @@ def _gen_const(rng, i):
     elif vk == "bool":
         v = {"k": "bool", "v": rng.random() < 0.5}
     elif vk == "str":
-        v = {"k": "str", "v": rng.choice(["", "a", "Z", "ab", "\x7f", "\x80", "é", "€", "\ud800", "\U0001f600"])}
+        v = {"k": "str", "v": rng.choice(["", "a", "Z", "ab", "\x7f", "\x80", "é", "€", "\ud800", "a\ud800", "\udfffz", "\ud800\udc00", "\U0001f600"])}
     else:
         v = {"k": vk}
     return {"type": t, "value": v}
